@@ -46,6 +46,9 @@ def check(prog: Program, run: Run) -> None:
     # shared implementations (reported under this property's ids)
     _as(run, "C04.R5", "C08.R4", lambda r: c04._non_settable(prog, r))
     _as(run, "C06.R4", "C08.R5", lambda r: c06._const_prefix(prog, r))
+    # the prefix is a PDU of its own: its last constant is encoded as the end of a PDU
+    from . import c01
+    c01.encode_state_roots(prog, run, "C08.R5")
     _as(run, "C01.R2", "C08.R6", lambda r: c01._positioning(prog, r))
     from . import c02
     _as(run, "C02.R3", "C08.R6", lambda r: c02._emplace_paths(prog, r))
